@@ -616,6 +616,8 @@ theorem matchOne_inv (w : World) (auction : Bool) (pre post : List Ord) (o : Ord
   unfold World.matchOne
   rw [if_neg (by simp [hwf.1])]
   split
+  · exact hinv
+  split
   · rename_i wi d hwi hd
     split
     · exact hinv
